@@ -491,6 +491,12 @@ static bool has_flonum2(Type *ty) {
 // *nfp and returns true if that many are still free when `gp` and
 // `fp` registers of each kind are already taken.
 static bool struct_in_regs(Type *ty, int gp, int fp, int *ngp, int *nfp) {
+  // A GNU empty struct occupies no register and no stack slot.
+  if (ty->size == 0) {
+    *ngp = *nfp = 0;
+    return true;
+  }
+
   bool fp1 = has_flonum1(ty);
   *nfp = fp1;
   *ngp = !fp1;
@@ -634,6 +640,10 @@ static void copy_ret_buffer(Obj *var) {
   Type *ty = var->ty;
   int gp = 0, fp = 0;
 
+  // A GNU empty struct is returned in no register.
+  if (ty->size == 0)
+    return;
+
   if (has_flonum1(ty)) {
     assert(ty->size == 4 || 8 <= ty->size);
     if (ty->size == 4)
@@ -670,6 +680,9 @@ static void copy_ret_buffer(Obj *var) {
 static void copy_struct_reg(void) {
   Type *ty = current_fn->ty->return_ty;
   int gp = 0, fp = 0;
+
+  if (ty->size == 0)
+    return;
 
   println("  mov %%rax, %%rdi");
 
@@ -976,7 +989,7 @@ static void gen_expr(Node *node) {
       switch (ty->kind) {
       case TY_STRUCT:
       case TY_UNION:
-        if (ty->size > 16)
+        if (ty->size > 16 || ty->size == 0)
           continue;
 
         int ngp, nfp;
@@ -1705,6 +1718,8 @@ static void emit_text(Obj *prog) {
       case TY_STRUCT:
       case TY_UNION:
         assert(ty->size <= 16);
+        if (ty->size == 0)
+          break;
         if (has_flonum(ty, 0, 8, 0))
           store_fp(fp++, var->offset, MIN(8, ty->size));
         else
